@@ -12,11 +12,12 @@ Local Open Scope Z_scope.
 Record limits := {
   l_ponder : bool; l_wtime : Z; l_btime : Z; l_winc : Z; l_binc : Z; l_movestogo : Z;
   l_depth : Z; l_nodes : Z; l_mate : option Z; l_movetime : Z; l_infinite : bool;
-  l_searchmoves : list string
+  l_searchmoves : list string;
+  l_clock : bool                 (* Limits::clock: a wtime / btime value was given *)
 }.
 Definition default_limits : limits :=
   {| l_ponder := false; l_wtime := 0; l_btime := 0; l_winc := 0; l_binc := 0; l_movestogo := 0;
-     l_depth := 0; l_nodes := 0; l_mate := None; l_movetime := 0; l_infinite := false; l_searchmoves := [] |}.
+     l_depth := 0; l_nodes := 0; l_mate := None; l_movetime := 0; l_infinite := false; l_searchmoves := []; l_clock := false |}.
 
 (* ---- tokens ---- *)
 Definition in_range (lo hi : nat) (c : ascii) : bool := (Nat.leb lo (nat_of_ascii c) && Nat.leb (nat_of_ascii c) hi)%bool.
@@ -54,22 +55,24 @@ Definition numeric_keyword (t : string) : option field :=
 
 Definition set_field (f : field) (v : Z) (L : limits) : limits :=
   match f with
-  | FWtime => {| l_ponder := l_ponder L; l_wtime := v; l_btime := l_btime L; l_winc := l_winc L; l_binc := l_binc L; l_movestogo := l_movestogo L; l_depth := l_depth L; l_nodes := l_nodes L; l_mate := l_mate L; l_movetime := l_movetime L; l_infinite := l_infinite L; l_searchmoves := l_searchmoves L |}
-  | FBtime => {| l_ponder := l_ponder L; l_wtime := l_wtime L; l_btime := v; l_winc := l_winc L; l_binc := l_binc L; l_movestogo := l_movestogo L; l_depth := l_depth L; l_nodes := l_nodes L; l_mate := l_mate L; l_movetime := l_movetime L; l_infinite := l_infinite L; l_searchmoves := l_searchmoves L |}
-  | FWinc => {| l_ponder := l_ponder L; l_wtime := l_wtime L; l_btime := l_btime L; l_winc := v; l_binc := l_binc L; l_movestogo := l_movestogo L; l_depth := l_depth L; l_nodes := l_nodes L; l_mate := l_mate L; l_movetime := l_movetime L; l_infinite := l_infinite L; l_searchmoves := l_searchmoves L |}
-  | FBinc => {| l_ponder := l_ponder L; l_wtime := l_wtime L; l_btime := l_btime L; l_winc := l_winc L; l_binc := v; l_movestogo := l_movestogo L; l_depth := l_depth L; l_nodes := l_nodes L; l_mate := l_mate L; l_movetime := l_movetime L; l_infinite := l_infinite L; l_searchmoves := l_searchmoves L |}
-  | FMovestogo => {| l_ponder := l_ponder L; l_wtime := l_wtime L; l_btime := l_btime L; l_winc := l_winc L; l_binc := l_binc L; l_movestogo := v; l_depth := l_depth L; l_nodes := l_nodes L; l_mate := l_mate L; l_movetime := l_movetime L; l_infinite := l_infinite L; l_searchmoves := l_searchmoves L |}
-  | FDepth => {| l_ponder := l_ponder L; l_wtime := l_wtime L; l_btime := l_btime L; l_winc := l_winc L; l_binc := l_binc L; l_movestogo := l_movestogo L; l_depth := v; l_nodes := l_nodes L; l_mate := l_mate L; l_movetime := l_movetime L; l_infinite := l_infinite L; l_searchmoves := l_searchmoves L |}
-  | FNodes => {| l_ponder := l_ponder L; l_wtime := l_wtime L; l_btime := l_btime L; l_winc := l_winc L; l_binc := l_binc L; l_movestogo := l_movestogo L; l_depth := l_depth L; l_nodes := v; l_mate := l_mate L; l_movetime := l_movetime L; l_infinite := l_infinite L; l_searchmoves := l_searchmoves L |}
-  | FMate => {| l_ponder := l_ponder L; l_wtime := l_wtime L; l_btime := l_btime L; l_winc := l_winc L; l_binc := l_binc L; l_movestogo := l_movestogo L; l_depth := l_depth L; l_nodes := l_nodes L; l_mate := Some v; l_movetime := l_movetime L; l_infinite := l_infinite L; l_searchmoves := l_searchmoves L |}
-  | FMovetime => {| l_ponder := l_ponder L; l_wtime := l_wtime L; l_btime := l_btime L; l_winc := l_winc L; l_binc := l_binc L; l_movestogo := l_movestogo L; l_depth := l_depth L; l_nodes := l_nodes L; l_mate := l_mate L; l_movetime := v; l_infinite := l_infinite L; l_searchmoves := l_searchmoves L |}
+  | FWtime => {| l_ponder := l_ponder L; l_wtime := v; l_btime := l_btime L; l_winc := l_winc L; l_binc := l_binc L; l_movestogo := l_movestogo L; l_depth := l_depth L; l_nodes := l_nodes L; l_mate := l_mate L; l_movetime := l_movetime L; l_infinite := l_infinite L; l_searchmoves := l_searchmoves L; l_clock := true |}
+  | FBtime => {| l_ponder := l_ponder L; l_wtime := l_wtime L; l_btime := v; l_winc := l_winc L; l_binc := l_binc L; l_movestogo := l_movestogo L; l_depth := l_depth L; l_nodes := l_nodes L; l_mate := l_mate L; l_movetime := l_movetime L; l_infinite := l_infinite L; l_searchmoves := l_searchmoves L; l_clock := true |}
+  | FWinc => {| l_ponder := l_ponder L; l_wtime := l_wtime L; l_btime := l_btime L; l_winc := v; l_binc := l_binc L; l_movestogo := l_movestogo L; l_depth := l_depth L; l_nodes := l_nodes L; l_mate := l_mate L; l_movetime := l_movetime L; l_infinite := l_infinite L; l_searchmoves := l_searchmoves L; l_clock := l_clock L |}
+  | FBinc => {| l_ponder := l_ponder L; l_wtime := l_wtime L; l_btime := l_btime L; l_winc := l_winc L; l_binc := v; l_movestogo := l_movestogo L; l_depth := l_depth L; l_nodes := l_nodes L; l_mate := l_mate L; l_movetime := l_movetime L; l_infinite := l_infinite L; l_searchmoves := l_searchmoves L; l_clock := l_clock L |}
+  | FMovestogo => {| l_ponder := l_ponder L; l_wtime := l_wtime L; l_btime := l_btime L; l_winc := l_winc L; l_binc := l_binc L; l_movestogo := v; l_depth := l_depth L; l_nodes := l_nodes L; l_mate := l_mate L; l_movetime := l_movetime L; l_infinite := l_infinite L; l_searchmoves := l_searchmoves L; l_clock := l_clock L |}
+  | FDepth => {| l_ponder := l_ponder L; l_wtime := l_wtime L; l_btime := l_btime L; l_winc := l_winc L; l_binc := l_binc L; l_movestogo := l_movestogo L; l_depth := v; l_nodes := l_nodes L; l_mate := l_mate L; l_movetime := l_movetime L; l_infinite := l_infinite L; l_searchmoves := l_searchmoves L; l_clock := l_clock L |}
+  | FNodes => {| l_ponder := l_ponder L; l_wtime := l_wtime L; l_btime := l_btime L; l_winc := l_winc L; l_binc := l_binc L; l_movestogo := l_movestogo L; l_depth := l_depth L; l_nodes := v; l_mate := l_mate L; l_movetime := l_movetime L; l_infinite := l_infinite L; l_searchmoves := l_searchmoves L; l_clock := l_clock L |}
+  | FMate => {| l_ponder := l_ponder L; l_wtime := l_wtime L; l_btime := l_btime L; l_winc := l_winc L; l_binc := l_binc L; l_movestogo := l_movestogo L; l_depth := l_depth L; l_nodes := l_nodes L; l_mate := Some v; l_movetime := l_movetime L; l_infinite := l_infinite L; l_searchmoves := l_searchmoves L; l_clock := l_clock L |}
+  | FMovetime => {| l_ponder := l_ponder L; l_wtime := l_wtime L; l_btime := l_btime L; l_winc := l_winc L; l_binc := l_binc L; l_movestogo := l_movestogo L; l_depth := l_depth L; l_nodes := l_nodes L; l_mate := l_mate L; l_movetime := v; l_infinite := l_infinite L; l_searchmoves := l_searchmoves L; l_clock := l_clock L |}
   end.
 Definition set_ponder (L : limits) : limits :=
-  {| l_ponder := true; l_wtime := l_wtime L; l_btime := l_btime L; l_winc := l_winc L; l_binc := l_binc L; l_movestogo := l_movestogo L; l_depth := l_depth L; l_nodes := l_nodes L; l_mate := l_mate L; l_movetime := l_movetime L; l_infinite := l_infinite L; l_searchmoves := l_searchmoves L |}.
+  {| l_ponder := true; l_wtime := l_wtime L; l_btime := l_btime L; l_winc := l_winc L; l_binc := l_binc L; l_movestogo := l_movestogo L; l_depth := l_depth L; l_nodes := l_nodes L; l_mate := l_mate L; l_movetime := l_movetime L; l_infinite := l_infinite L; l_searchmoves := l_searchmoves L; l_clock := l_clock L |}.
 Definition set_infinite (L : limits) : limits :=
-  {| l_ponder := l_ponder L; l_wtime := l_wtime L; l_btime := l_btime L; l_winc := l_winc L; l_binc := l_binc L; l_movestogo := l_movestogo L; l_depth := l_depth L; l_nodes := l_nodes L; l_mate := l_mate L; l_movetime := l_movetime L; l_infinite := true; l_searchmoves := l_searchmoves L |}.
+  {| l_ponder := l_ponder L; l_wtime := l_wtime L; l_btime := l_btime L; l_winc := l_winc L; l_binc := l_binc L; l_movestogo := l_movestogo L; l_depth := l_depth L; l_nodes := l_nodes L; l_mate := l_mate L; l_movetime := l_movetime L; l_infinite := true; l_searchmoves := l_searchmoves L; l_clock := l_clock L |}.
+Definition set_clock (L : limits) : limits :=
+  {| l_ponder := l_ponder L; l_wtime := l_wtime L; l_btime := l_btime L; l_winc := l_winc L; l_binc := l_binc L; l_movestogo := l_movestogo L; l_depth := l_depth L; l_nodes := l_nodes L; l_mate := l_mate L; l_movetime := l_movetime L; l_infinite := l_infinite L; l_searchmoves := l_searchmoves L; l_clock := true |}.
 Definition add_moves (ms : list string) (L : limits) : limits :=
-  {| l_ponder := l_ponder L; l_wtime := l_wtime L; l_btime := l_btime L; l_winc := l_winc L; l_binc := l_binc L; l_movestogo := l_movestogo L; l_depth := l_depth L; l_nodes := l_nodes L; l_mate := l_mate L; l_movetime := l_movetime L; l_infinite := l_infinite L; l_searchmoves := l_searchmoves L ++ ms |}.
+  {| l_ponder := l_ponder L; l_wtime := l_wtime L; l_btime := l_btime L; l_winc := l_winc L; l_binc := l_binc L; l_movestogo := l_movestogo L; l_depth := l_depth L; l_nodes := l_nodes L; l_mate := l_mate L; l_movetime := l_movetime L; l_infinite := l_infinite L; l_searchmoves := l_searchmoves L ++ ms; l_clock := l_clock L |}.
 
 (* the longest prefix of move-shaped tokens *)
 Fixpoint take_moves (ts : list string) : list string * list string :=
@@ -96,7 +99,7 @@ Fixpoint parse_loop (fuel : nat) (ts : list string) (L : limits) : limits :=
                           | Some z => parse_loop k r' (set_field f z L)
                           | None => set_field f 0 L                (* failed extraction stores 0 and ends the loop *)
                           end
-             | [] => L                                              (* nothing to read: stream failed, value untouched *)
+             | [] => match f with FWtime | FBtime => set_clock L | _ => L end    (* nothing to read: stream failed, value untouched (the clock flag is set all the same) *)
              end
            | None => parse_loop k r L                               (* unknown tokens are skipped *)
            end
